@@ -13,8 +13,12 @@ LEVEL_TEXT = ("Theorems for all values: an Rread frame is 11 + min(count, msize-
               "entries within min(count, msize-11) <= msize; the client's messageSize is min(own, announced) (refused <= 153), payloadSize <= msize-153, every chunk <= payloadSize so "
               "every Twrite (23+chunk), Tread (23) and its reply (11+n, n <= count) and every Treaddir with its fullest reply fit. Every run re-checks the proofs and compares the model "
               "and the property with the sizes observed on the real server and client.")
-LEVEL_NOTE = ("Trusted: Coq kernel + vm_compute; the hand model Frame/Sizes.v (tied by the differential only); ConstGen; largestFixedSize (153) and the fixed frame overheads are compared "
-              "with the Go values by the harness. A backend returning more bytes than len(p) and a server answering a Tread with more than count are outside the property.")
+LEVEL_NOTE = ("Trusted: Coq kernel + vm_compute; the hand model Frame/Sizes.v (tied by the differential only); ConstGen; largestFixedSize (153, duplicated by hand in Frame/Sizes.v and Fs/Version.v) and the fixed "
+              "frame overheads are compared with the Go values on every run. 'The msize it announced' is read as the msize of the LAST Rversion that announced one on the connection (an 'unknown' Rversion carries 0 and "
+              "changes nothing): C13_session_msize / C13_session are theorems over Tversion histories and the harness replays 2-3 Tversions per connection. `agrees` demands the exact clamps (msize-11, roundDown(msize-153,512)): "
+              "a behaviour-preserving change of a clamp is reported as a model mismatch by design. Timeouts: a request unanswered for 15 s is retried on up to two fresh connections and a client call caught by the 10 s watchdog is "
+              "repeated up to three times; only a stall confirmed three times is reported, and then as a model mismatch (the model says the call returns), never as an msize violation. "
+              "A backend returning more bytes than len(p) and a server answering a Tread with more than count are outside the property. White-box harness (cs/Client fields, registry): renaming them breaks its compilation.")
 DESIGN_REF = "6/C13"
 ASSUMPTIONS = [
     "File.ReadAt returns at most len(p) bytes (io.ReaderAt contract); a remote server answers Tread/Treaddir with at most count bytes",
@@ -113,22 +117,49 @@ def run(ctx):
                 ctx.note("model/implementation disagree on: %s" % str({k: v for k, v in o.items() if k != "sizes"})[:600])
             ctx.broken.append({"kind": "correspondence", "what": "Frame/Sizes.v disagrees with the implementation (%s)" % o["kind"],
                                "case": {k: v for k, v in o.items() if len(str(v)) < 2000}})
-    distinct = len({str(sorted((k, str(v)) for k, v in o.items() if k != "id")) for o in obs})
+    def cls(o):
+        """distinct behaviour = (kind, Tversion history, position of the count relative to the msize in force
+        (below msize-11 / msize-11 / within the last 11 / above msize / above 4 MiB), data available vs count,
+        wrapping offset?, reply type+errno, frame == msize?); client: (op, requested vs announced msize, number of frames, result)"""
+        k = o["kind"]
+        if k in ("sread", "sxread", "sreaddir"):
+            a, c = o["ann"], o["count"]
+            pos = "gt4M" if c > 4194304 else "gtms" if c > a else "last11" if c > a - 11 else "eq" if c == a - 11 else "below"
+            return (k, tuple((t["msize"], t["ok"]) for t in o["hist"]), pos, o.get("off", 0) > 2**63, o["rtype"], o.get("errno", 0), o["rsize"] == a,
+                    o.get("honour"), (o.get("fsize", o.get("vlen", 0)) >= c))
+        if k == "client":
+            return (k, o["op"], o["req"], o["announce"], len(o.get("frames") or []), o["result"], o.get("hang"))
+        return (k, str(o.get("hist")))
     small = lambda o: {k: v for k, v in o.items() if len(str(v)) < 300}
+    def first(pred, why):
+        for o in obs:
+            if pred(o):
+                return [{"why": why, "case": small(o)}]
+        return []
+    samples = (first(lambda o: o["kind"] == "sread" and len(o["hist"]) > 1 and o["rsize"] == o["ann"], "renegotiated session, Rread exactly fills the last announced msize")
+               + first(lambda o: o["kind"] == "sxread" and o["off"] > 2**63 and o["rtype"] == 7, "xattr Tread with a wrapping offset: EINVAL")
+               + first(lambda o: o["kind"] == "sreaddir" and o["count"] > o["ann"] and o["rsize"] > o["ann"] - 40, "Treaddir count above msize: listing cut to whole entries")
+               + first(lambda o: o["kind"] == "client" and o["result"] == "ok" and o["announce"] < o["req"] and len(o.get("frames") or []) > 1, "client chunks for a lowered msize")
+               + first(lambda o: o["kind"] == "client" and o["result"] == "toosmall", "client refuses an msize <= 153"))
     ctx.coverage.update({
         "evaluations": len(obs),
-        "distinct_nontrivial": distinct,
+        "distinct_nontrivial": len({cls(o) for o in obs}),
+        "distinct_rule": cls.__doc__,
+        "distinct_records": len({str(sorted((k, str(v)) for k, v in o.items() if k != "id")) for o in obs}),
         "rule": "server: msize {23,35,154,4096,64K,4MiB,2^32-1,...} x Tread/Treaddir counts {0,1,12,m-12,m-11,m-10,m-1,m,m+1,4MiB-11,4MiB,4MiB+1,2^32-1,m/2} x file sizes around m "
-                "x directories (0..m/24+50 entries, backend honouring / ignoring count); client: WithMessageSize {154,1K,8K,64K} x announced {same,-1,0,153,154,155,665,666,1200,larger,half,2^32-1} "
-                "x WriteAt/ReadAt lengths around payloadSize (with short acknowledgements) x Readdir counts around msize x GetXattr sizes; distinct = distinct observation records",
-        "correspondence": {"cases": len(obs), "mismatches": nm, "by_kind": kinds},
-        "samples": [small(obs[0])] + [small(o) for o in obs if o["kind"] == "sread"][:1] + [small(o) for o in obs if o["kind"] == "client"][:1],
+                "x xattr values around m with offsets {0,7,len,len+1,2^64-1,2^64-2,2^64-m,...} x directories (0..m/24+50 entries, backend honouring / ignoring count); "
+                "sessions with 2-3 Tversions (smaller, larger, refused string, msize 0 in between) x counts around EVERY msize of the history; "
+                "client: WithMessageSize {154,1K,(8K),64K} x announced {same,-1,0,153,154,155,665,666,1200,larger,half,2^32-1,P..P+23,523,524,...} "
+                "x WriteAt/ReadAt lengths around payloadSize (with short acknowledgements) x Readdir counts around msize x GetXattr sizes",
+        "correspondence": {"cases": len(obs), "mismatches": nm, "by_kind": kinds,
+                           "stalls_retried": sum(o.get("stalls", 0) for o in obs), "client_watchdog_hits": sum(1 for o in obs if o.get("hang"))},
+        "samples": samples,
     })
 
 
 def search(ctx):
-    if ctx.thorough:
-        return
+    if ctx.thorough or all(b.get("kind") in ("obligation", "translator", "forbidden-vernacular") for b in ctx.broken):
+        return  # a broken proof / refused table is not made more concrete by a longer harness run
     ctx.tier = "thorough"
     ctx.thorough = True
     run(ctx)
